@@ -62,7 +62,20 @@ namespace occa {
     }
 
     void leftUnaryOpNode::print(printer &pout) const {
-      pout << op << *value;
+      pout << op;
+      // Keep two adjacent prefix operators apart when their spellings would
+      // otherwise be read back as one token: - -a, + +a, - --a, + ++a, & &a
+      if (value->type() & exprNodeType::leftUnary) {
+        const std::string &nextOp = ((const leftUnaryOpNode*) value)->op.str;
+        if (op.str.size() && nextOp.size()) {
+          const char c = op.str[op.str.size() - 1];
+          if ((c == nextOp[0]) &&
+              ((c == '+') || (c == '-') || (c == '&'))) {
+            pout << ' ';
+          }
+        }
+      }
+      pout << *value;
     }
 
     void leftUnaryOpNode::debugPrint(const std::string &prefix) const {
